@@ -247,10 +247,9 @@ def hostile_cases(chk):
     sets = list(HOSTILE_SETS)
     for pi, (name, pol) in enumerate(P.items()):
         if chk.tier == "quick":
-            cases.append(hostile_case(name, pol, reqs, COLLABS[0], "all"))
-            cases.append(hostile_case(name, pol, reqs, COLLABS[1], "declogger"))
-            extra = sets[2 + pi % 3]
-            cases.append(hostile_case(name, pol, rng.sample(reqs, 3), COLLABS[pi % 3], extra))
+            # every policy with the all-editing set, and with one of the other sets in rotation (half the requests)
+            cases.append(hostile_case(name, pol, reqs if pi % 2 == 0 else reqs[:4], COLLABS[0], "all"))
+            cases.append(hostile_case(name, pol, rng.sample(reqs, 3), COLLABS[1 + pi % 2], sets[1 + pi % 4]))
         else:
             for ci, collab in enumerate(COLLABS):
                 for hset in sets:
